@@ -6,5 +6,5 @@ CONSTANTS
   ND = @ND@
 INIT EInit
 NEXT ENext
-INVARIANTS Emit
+INVARIANTS Conform Emit
 CHECK_DEADLOCK FALSE
